@@ -134,6 +134,7 @@ fn remove_char(world: &World, ops: &[Op], inp: usize, pos: usize, len: usize) ->
             }
             match o {
                 Op::SetOffset { it, offset } => Op::SetOffset { it: *it, offset: map(*offset) },
+                Op::WithOffsetMid { it, offset } => Op::WithOffsetMid { it: *it, offset: map(*offset) },
                 Op::Position { it, offset } => Op::Position { it: *it, offset: map(*offset) },
                 Op::NewIter { it, sc, input, positions, with_offset } => Op::NewIter {
                     it: *it,
